@@ -57,11 +57,21 @@ static void run_one(const Plan &p, const gen::Csr &A0, const std::vector<double>
             prm.put("precond.coarsening.type", coarsening_names[p.get("coarsening")]);
             prm.put("precond.relax.type", relax_names[p.get("relax")]);
             prm.put("precond.coarse_enough", p.get("coarse_enough"));
-            prm.put("precond.max_levels", p.get("max_levels"));
+            prm.put("precond.max_levels", p.get("ncycle") > 1 ? std::min<long>(p.get("max_levels"), 6) : p.get("max_levels"));   // a W-cycle over a deep hierarchy costs 2^levels
             prm.put("precond.direct_coarse", p.get("direct_coarse") != 0);
             prm.put("precond.npre", p.get("npre")); prm.put("precond.npost", p.get("npost")); prm.put("precond.ncycle", p.get("ncycle"));
             prm.put("precond.pre_cycles", p.get("pre_cycles"));
             if (p.get("coarsening") != 0 && p.get("block_size") > 1 && n % p.get("block_size") == 0) prm.put("precond.coarsening.aggr.block_size", p.get("block_size"));
+            // near-null-space vectors (aggregation-type coarsenings): [1, x, x^2 ...] in row-major order
+            std::vector<double> nsB;
+            long nscols = p.get("coarsening") != 0 ? p.get("nullspace") : 0;
+            if (nscols > 0) {
+                nsB.resize((size_t)n * nscols);
+                for (long i = 0; i < n; ++i) for (long c = 0; c < nscols; ++c) nsB[i * nscols + c] = c == 0 ? 1.0 : std::pow((double)(i + 1) / n, (double)c);
+                prm.put("precond.coarsening.nullspace.cols", nscols);
+                prm.put("precond.coarsening.nullspace.rows", n);
+                prm.put("precond.coarsening.nullspace.B", nsB.data());
+            }
             std::vector<double> x(n, 0.0), u(n, 0.0);
             size_t it; double res;
             if (kind == K_AMG) {
@@ -73,7 +83,7 @@ static void run_one(const Plan &p, const gen::Csr &A0, const std::vector<double>
                 // zero-copy adapter: the library must neither copy nor free the user's arrays
                 std::vector<ptrdiff_t> ptr(A.ptr), col(A.col); std::vector<double> val(A.val);
                 auto Z = amgcl::adapter::zero_copy((size_t)n, ptr.data(), col.data(), val.data());
-                RtSolver S(*Z, prm);
+                RtSolver S(Z, prm);        // shared_ptr overload: the hierarchy really works on the user's arrays
                 std::ostringstream os; os << S.precond(); o.text = os.str();
                 S.precond().apply(rhs, u);
                 std::tie(it, res) = S(rhs, x);
@@ -144,6 +154,7 @@ Plan generate(uint64_t seed, uint64_t run, bool thorough) {
     p.set("direct_coarse", r.chance(0.8) ? 1 : 0, 0);
     p.set("npre", r.range(0, 2), 0); p.set("npost", r.range(0, 2), 0); p.set("ncycle", r.range(1, 2), 1); p.set("pre_cycles", r.range(0, 2), 0);
     p.set("block_size", r.chance(0.2) ? r.range(2, 3) : 1, 1);
+    p.set("nullspace", r.chance(0.3) ? r.range(1, 3) : 0, 0);
     p.set("nt", r.chance(0.6) ? 1 : draw_nt(r, 2, 32), 1);
     p.set("prehistory", r.range(0, 3), 0);
     p.set("heap_seed", (long)(r.next() >> 16), 0);
@@ -232,7 +243,7 @@ Result execute(const Plan &p) {
     s.set("kind", kind_names[p.get("kind")]); s.set("family", gen::family_name((int)p.get("family"))); s.set("n", A.n); s.set("nnz", (long)A.nnz());
     s.set("coarsening", coarsening_names[p.get("coarsening")]); s.set("relax", relax_names[p.get("relax")]); s.set("solver", solver_names[p.get("solver")]);
     s.set("coarse_enough", p.get("coarse_enough")); s.set("max_levels", p.get("max_levels")); s.set("levels", (long)levels); s.set("nt", nt);
-    s.set("prehistory", p.get("prehistory")); s.set("outcome", outs[0].exc.empty() ? "ok" : outs[0].exc);
+    s.set("prehistory", p.get("prehistory")); s.set("nullspace_vectors", p.get("coarsening") != 0 ? p.get("nullspace") : 0); s.set("outcome", outs[0].exc.empty() ? "ok" : outs[0].exc);
     js::Value hs = js::Value::array();
     for (int k = 0; k < nheaps; ++k) hs.push(fmt("%s/recycle=%d/shift=%d", sim::heap_fill_name(heaps[k].fill), heaps[k].recycle, heaps[k].shift));
     s.set("heaps", hs);
